@@ -171,8 +171,11 @@ def stability(ctx, aotools, nx, ps, r0, L0, ncol, rng, long_rows):
     B0 = vk.variance(r0, L0)
     anorm = float(np.abs(F).sum(axis=1).max())
     res = Pth - F @ Pth @ F.T - G @ G.T
-    ctx.metric("stein_residual/(eps32 B0 (1+|A|)^2)", float(np.abs(res).max() / (EPS32 * B0 * (1 + anorm) ** 2)))
-    ctx.close("stein_residual", F @ Pth @ F.T + G @ G.T, Pth, 30 * EPS32 * B0 * (1 + anorm) ** 2, "stability:stationary_covariance_is_not_von_karman", wit, scale=B0)
+    evp = np.linalg.eigvalsh(Pth)
+    kappa = float(evp.max() / max(evp.min(), 1e-300 * evp.max()))
+    ctx.metric("stein_residual/(eps64 cond B0 (1+|A|)^2)", float(np.abs(res).max() / (2.2e-16 * kappa * B0 * (1 + anorm) ** 2)))
+    ctx.close("stein_residual", F @ Pth @ F.T + G @ G.T, Pth, (1000 * 2.2e-16 * kappa + 1e-12) * B0 * (1 + anorm) ** 2,
+              "stability:stationary_covariance_is_not_von_karman", wit, scale=B0)
     # bounded progress, real executions: zero innovations from hostile screens must contract like rho^K
     shape = scr._scrn.shape
     K = int(rng.choice([200, 600, 2000]))
@@ -222,13 +225,13 @@ def run(ctx, spec):
                 nreq = int(rng.integers(4, 30))
                 extra = int(rng.integers(1, 5))
             L0 = float(10 ** rng.uniform(0, 2))
-            ps = float(L0 * 10 ** rng.uniform(-3, -0.6))
+            ps = float(L0 * 10 ** rng.uniform(-4.5, -0.6))
             r0 = float(10 ** rng.uniform(-1.3, 0))
             n_ops = int(rng.integers(60, 400)) if nreq <= 33 else 30
             history(ctx, aotools, variant, nreq, ps, r0, L0, extra, rng, n_ops)
     for s in range(spec["stab"]):
         nx = int(rng.integers(5, 22))
         L0 = float(10 ** rng.uniform(0, 2))
-        ps = float(L0 * 10 ** rng.uniform(-2.3, -0.6) / 1.0)
-        ps = max(ps, 0.005 * L0 / nx * 1.5)       # keeps the spectral radius measurably below 1
+        # from coarse sampling down to pixel scales of 1e-5 L0, where the stencil covariance is extremely ill conditioned
+        ps = float(L0 * 10 ** rng.uniform(-5.0, -0.6))
         stability(ctx, aotools, nx, ps, float(10 ** rng.uniform(-1.3, 0)), L0, int(rng.integers(1, 4)), rng, spec["long_rows"])
